@@ -50,10 +50,11 @@ type Scenario struct {
 
 // The statement: "at most a fixed small number (about a thousand) of further
 // interpreter steps".  One poll interval of the code is 1000 instructions; the
-// slack covers the dispatch that polls and off-by-one choices of a counter.
+// slack covers the dispatch that polls, off-by-one choices of a counter and a
+// power-of-two interval (1024).
 const (
 	PollInterval = 1000
-	Slack        = 8
+	Slack        = 32
 	AbortAfter   = 25000 // the hook aborts a run that is still executing this long after the cancellation
 	HangTimeout  = 60 * time.Second
 )
@@ -95,6 +96,28 @@ func (c *manualCtx) finish() {
 		c.mu.Unlock()
 		close(c.done)
 	})
+}
+
+// outBuf is the Config.Output of all runs: safe for concurrent use and without
+// ReadFrom.  The interpreter hands Config.Output to child processes as their
+// stdout, so os/exec copies into it from another goroutine; a bytes.Buffer
+// there loses what the interpreter writes meanwhile (bytes.Buffer.ReadFrom
+// truncates to the length it saw before blocking).  That is property C13's
+// business; here it must not disturb the observation.
+type outBuf struct {
+	mu  sync.Mutex
+	buf bytes.Buffer
+}
+
+func (o *outBuf) Write(p []byte) (int, error) {
+	o.mu.Lock()
+	defer o.mu.Unlock()
+	return o.buf.Write(p)
+}
+func (o *outBuf) Bytes() []byte {
+	o.mu.Lock()
+	defer o.mu.Unlock()
+	return append([]byte{}, o.buf.Bytes()...)
 }
 
 // ---- one observed run ----
@@ -179,10 +202,10 @@ func run(o runOpts) (obs Obs) {
 		return obs
 	}
 	in, _ := interp.New(prog)
-	var buf bytes.Buffer
+	var buf outBuf
 	var out io.Writer = &buf
 	var bw *bufio.Writer
-	if o.buffered {
+	if o.buffered && !o.outside { // (a bufio.Writer shared with a child's copier would be the same C13 matter)
 		bw = bufio.NewWriterSize(&buf, 1<<16)
 		out = bw
 	}
@@ -258,7 +281,11 @@ func run(o runOpts) (obs Obs) {
 		obs.Result = "hang"
 		mctx.finish()
 	}
-	obs.Out = append([]byte{}, buf.Bytes()...)
+	if bw != nil && obs.Result != "hang" {
+		// what sits in the caller's own bufio.Writer has been delivered to Config.Output
+		bw.Flush()
+	}
+	obs.Out = buf.Bytes()
 	obs.NAtCancel, obs.Since, obs.Ticks = nAt, since, ticks
 	return obs
 }
@@ -366,7 +393,7 @@ func Replay(raw json.RawMessage) hx.Outcome {
 	} else if err != nil || len(sc.Kinds) == 0 {
 		return hx.Outcome{Skipped: true, Note: "bad case"}
 	}
-	shape := Shape{sc.Kinds, sc.Waiting, sc.Printed * 3}.Canon() // one printed line of the model = 3 lines
+	shape := Shape{sc.Kinds, sc.Waiting, sc.Printed * 3}.Canon(sc.Fam == "nocancel") // one printed line of the model = 3 lines
 	if sc.Waiting != "none" && !haveShell() {
 		return hx.Outcome{Skipped: true, Note: "no usable /bin/sh + sleep: " + shellWhy}
 	}
@@ -374,10 +401,7 @@ func Replay(raw json.RawMessage) hx.Outcome {
 		return replayNoCancel(&sc, shape)
 	}
 	src := shape.Source(false)
-	input := ""
-	if shape.UsesRecords() {
-		input = Records
-	}
+	input := shape.Input()
 	inner := shape.Innermost()
 	buffered := len(sc.Kinds)%2 == 0
 	limit := int64(sc.Expect.MaxSince)*PollInterval/int64(maxInt(sc.CheckEvery, 1)) + Slack
@@ -496,7 +520,7 @@ func compareWithExecute(src, input string, vars []string, class string, wantLine
 			return
 		}
 		in, _ := interp.New(prog)
-		var buf bytes.Buffer
+		var buf outBuf
 		cfg := &interp.Config{Stdin: strings.NewReader(input), Output: &buf, Error: io.Discard, Environ: []string{}, Funcs: funcs, Vars: vars}
 		defer func() {
 			if p := recover(); p != nil {
@@ -574,7 +598,7 @@ func runWithCtx(src, input string, ctx context.Context) (obs Obs) {
 		return obs
 	}
 	in, _ := interp.New(prog)
-	var buf bytes.Buffer
+	var buf outBuf
 	cfg := &interp.Config{Stdin: strings.NewReader(input), Output: &buf, Error: io.Discard, Environ: []string{},
 		Funcs: funcs, Vars: []string{"K", "-1", "pad", "0"}}
 	hookMu.Lock()
@@ -608,7 +632,7 @@ func runWithCtx(src, input string, ctx context.Context) (obs Obs) {
 		obs.Status, e = in.ExecuteContext(ctx, cfg)
 		obs.Result, obs.ErrID = classify(e)
 	}()
-	obs.Out = append([]byte{}, buf.Bytes()...)
+	obs.Out = buf.Bytes()
 	obs.NAtCancel, obs.Since = nAt, since
 	return obs
 }
@@ -617,12 +641,9 @@ func runWithCtx(src, input string, ctx context.Context) (obs Obs) {
 // counts the hook observes (diagnostic mode `vreplay C15 probe`).
 func Probe(args []string) int {
 	for _, kinds := range [][]string{{"begin"}, {"action"}, {"pattern"}, {"end", "func", "func"}, {"action", "forin"}, {"begin", "func", "forin", "func"}} {
-		sh := Shape{kinds, "none", 3}.Canon()
+		sh := Shape{kinds, "none", 3}.Canon(false)
 		src := sh.Source(false)
-		input := ""
-		if sh.UsesRecords() {
-			input = Records
-		}
+		input := sh.Input()
 		c, ok := calibrate(src, input)
 		fmt.Printf("%v calibrated=%v n0=%d perPad=%d\n", kinds, ok, c.n0, c.perPad)
 		for _, t := range []int64{0, 1, 499, 999} {
